@@ -457,8 +457,11 @@ pub fn replay(props: &[Box<dyn Property>], file: &Path) -> i32 {
 pub fn selftest_determinism(props: &[Box<dyn Property>], n: u64) -> i32 {
     let mut bad = 0;
     let mut total = 0u64;
+    let n_req = n;
     for prop in props {
         let _lock = lock_property(prop.id());
+        // enumeration checks run hundreds of invocations per case: fewer cases
+        let n = n_req.min((prop.cases("quick") / 5).max(3));
         let batch = |workers: usize, seed: u64| -> Vec<(Vec<u64>, Option<String>)> {
             let next = Arc::new(AtomicU64::new(0));
             let (tx, rx) = mpsc::channel();
